@@ -262,6 +262,31 @@ def run_real(op):
                 return ['float', v]
             return ['?', repr(v)]
         return {'evaluate': res(ev), 'type': res(lambda: constant.type(s).value)}
+    if name == 'loads':
+        m = py_model(op.get('model'))
+        cont = op.get('container', 'str')
+
+        def f():
+            if cont == 'file' and op.get('real_container') != 'stringio':
+                import os
+                import tempfile
+                fd, path = tempfile.mkstemp(prefix='penman_loads_')
+                try:
+                    with os.fdopen(fd, 'w', encoding='utf-8', newline='') as fh:
+                        fh.write(op['s'])
+                    return penman.load(path, model=m, encoding='utf-8')
+                finally:
+                    os.remove(path)
+            if cont == 'stringio' or op.get('real_container') == 'stringio':
+                return penman.load(io.StringIO(op['s'], newline=None), model=m)
+            if op.get('lines') is not None:
+                return list(penman.iterdecode(op['lines'], model=m))
+            return penman.loads(op['s'], model=m)
+        return res(f, lambda gs: [j_graph(g) for g in gs])
+    if name == 'dumps':
+        m = py_model(op.get('model'))
+        return res(lambda: penman.dumps([py_graph(g) for g in op['graphs']], model=m, indent=op.get('indent', -1),
+                                        compact=op.get('compact', False)))
     if name == 'main':
         return run_main(op.get('model'), op.get('opts', {}), op['inputs'])
     raise KeyError(name)
